@@ -355,3 +355,54 @@ def spin_content(reaction) -> str:
         h, o = node_children(top, n)
         parts.append(f"{float(t.states[pin].particle.spin):g}>{float(t.states[h].particle.spin):g},{float(t.states[o].particle.spin):g}")
     return ";".join(parts)
+
+
+def synth_multi_topology(seed: int, pairs=((0, 1), (0, 2)), half_integer: bool = False, formalism: str = "helicity"):
+    """Three-body reaction with one resonance per listed pair (several topologies, shared outer particles).
+
+    With pairs containing final-state id 0 the decaying child is the helicity state in every topology, so none of
+    the known multi-topology findings about opposite-helicity decaying children applies."""
+    import attrs
+    from qrules.quantum_numbers import InteractionProperties  # noqa: PLC0415
+    from qrules.topology import FrozenTransition, create_isobar_topologies  # noqa: PLC0415
+    from qrules.transition import ReactionInfo, State  # noqa: PLC0415
+
+    rng = np.random.default_rng([seed, 77])
+    base = create_isobar_topologies(3)[0]
+    bach = next(i for i in base.outgoing_edge_ids if base.edges[i].originating_node_id == base.edges[next(iter(base.intermediate_edge_ids))].originating_node_id)
+    res_edge = next(iter(base.intermediate_edge_ids))
+    kids = sorted(base.get_edge_ids_outgoing_from_node(base.edges[res_edge].ending_node_id))
+    if half_integer:
+        s_init, s_fin = Fraction(1, 2), [Fraction(1, 2), Fraction(0), Fraction(0)]
+    else:
+        s_init, s_fin = Fraction(int(rng.integers(0, 2))), [Fraction(1), Fraction(0), Fraction(0)]
+    if half_integer and rng.uniform() < 0.5:
+        s_fin[1] = Fraction(1, 2)
+        s_init = Fraction(1)
+    masses = [float(np.round(rng.uniform(0.2, 0.6), 3)) for _ in range(3)]
+    init = make_particle("A", s_init, -1, float(np.round(sum(masses) + rng.uniform(1.0, 2.0), 3)), pid=100)
+    finals = {i: make_particle(f"F{i}", s_fin[i], [1, -1][i % 2], masses[i], pid=101 + i) for i in range(3)}
+    transitions = []
+    for k, pair in enumerate(pairs):
+        other = ({0, 1, 2} - set(pair)).pop()
+        mapping = {bach: other, kids[0]: pair[0], kids[1]: pair[1]}
+        top = attrs.evolve(base, edges={mapping.get(i, i): e for i, e in base.edges.items()})
+        two_s = int(2 * (finals[pair[0]].spin + finals[pair[1]].spin)) % 2
+        s_res = Fraction(two_s + 2 * int(rng.integers(0, 2)), 2) if two_s else Fraction(int(rng.integers(1, 3)))
+        mres = float(np.round(masses[pair[0]] + masses[pair[1]] + rng.uniform(0.2, 0.6), 3))
+        res = make_particle(f"R{k}", s_res, 1, mres, 0.1 + 0.05 * k, pid=110 + k)
+        part = {next(iter(top.incoming_edge_ids)): init, res_edge: res, **finals}
+        ranges = {e: spin_range(Fraction(part[e].spin).limit_denominator(2)) for e in top.edges}
+        edge_ids = sorted(top.edges)
+        for combo in itertools.product(*[ranges[e] for e in edge_ids]):
+            lam = dict(zip(edge_ids, combo))
+            ok = True
+            for n in top.nodes:
+                pin = next(iter(top.get_edge_ids_ingoing_to_node(n)))
+                c1, c2 = sorted(top.get_edge_ids_outgoing_from_node(n))
+                if abs(lam[c1] - lam[c2]) > Fraction(part[pin].spin).limit_denominator(2):
+                    ok = False
+            if ok:
+                states = {e: State(part[e], float(lam[e])) for e in edge_ids}
+                transitions.append(FrozenTransition(top, states, {n: InteractionProperties() for n in top.nodes}))
+    return ReactionInfo(transitions, formalism="helicity")
